@@ -25,6 +25,7 @@ FINDINGS = {
     'stale-lambda-state': 'a lambda stored in the shared names mapping by an earlier eval keeps that call\'s VM state: its body is charged to the old counter against the old budget',
 }
 CASE_DEADLINE = 60
+HUGE_BUDGETS = [10 ** 6, 10 ** 9, 2 ** 31, 2 ** 63, 2 ** 64 + 1, 10 ** 30, 10 ** 100, 10 ** 4299, 10 ** 4300, 10 ** 5000, 10 ** 20000]
 UNBOUNDED = 20000      # budget of the 'unbounded' reference run; programs that need more are dropped (counted)
 D = Decimal
 MUTATORS = ['push', 'pop', 'insert', 'remove', '__setitem__', '__setitem_with_op__', '__delitem__']
@@ -232,19 +233,24 @@ def stale_lambdas(ctx, names, current_windows_states):
     return out
 
 
+def fmtN(N):
+    """budgets may be too long to print (int -> str conversion limit)"""
+    return N if N is None or N.bit_length() < 200 else '<integer of %d bits>' % N.bit_length()
+
+
 def judge_pair(ctx, case, src, N, unb, run, what_prefix=''):
     """compare a bounded run with the unbounded run of the same program; -> (what, detail) or None.
     `started` = node entries that got past the budget check (an entry refused at once by the check starts nothing)."""
     T = unb['enters']
     o, uo = run['outcome'], unb['outcome']
-    detail = {'src': src, 'N': N, 'T': T, 'outcome': o, 'unbounded_outcome': uo, 'node_entries': run['enters'], 'started': run['started'], 'charged': run['charged']}
+    detail = {'src': src, 'N': fmtN(N), 'T': T, 'outcome': o, 'unbounded_outcome': uo, 'node_entries': run['enters'], 'started': run['started'], 'charged': run['charged']}
     if run['started'] > N - 1:
-        return ('%d operations got past the budget check under a budget of %d (at most N-1 may)' % (run['started'], N), detail)
+        return ('%d operations got past the budget check under a budget of %s (at most N-1 may)' % (run['started'], fmtN(N)), detail)
     if T < N:
         if run['first_abort'] is not None:
-            return ('the budget check refused operation %d although the program needs only T=%d < N=%d' % (run['first_abort'], T, N), detail)
+            return ('the budget check refused operation %d although the program needs only T=%d < N=%s' % (run['first_abort'], T, fmtN(N)), detail)
         if o != uo:
-            return ('a run that needs T=%d operations behaves differently under the larger budget N=%d' % (T, N), detail)
+            return ('a run that needs T=%d operations behaves differently under the larger budget N=%s' % (T, fmtN(N)), detail)
         if run['log'] != unb['log']:
             detail['log'] = run['log'][-4:]
             return ('effects under budget N > T differ from the unbounded run', detail)
@@ -316,13 +322,15 @@ def run_case(case, ctx):
         if T + 2 > 60:
             budgets += sorted(set(r2.randint(61, T + 2) for _ in range(12)))
         budgets.append(None)
+        # budgets far above anything the program needs, up to integers too long to print: the limit is a number to compare with, nothing else
+        budgets += r2.sample(HUGE_BUDGETS, 2)
         prev = None
         for N in budgets:
             ctx.evaluations += 1
             run = one_run(ctx, P, src, make_names(ctx, seed), ast, N)
             n_eff = 100 if N is None else N
             ctx.count('budget_runs_compared')
-            ctx.nontriv('%s|%s|%s' % (src, N, cached))
+            ctx.nontriv('%s|%s|%s' % (src, fmtN(N), cached))
             bad = judge_pair(ctx, case, src, n_eff, unb, run)
             if bad:
                 finding = None
